@@ -39,7 +39,8 @@ check("C03", "model_checking",
       "elitist, has the right count, that the reference order (front asc, crowding desc) is allowed, exact crowding in [0,M], winner "
       "sound. The real crowding_distance (exact rational projection; tie and zero-range cases by the relaxed clause), "
       "nondominated_truncate (model populations x all k, random populations with duplicated designs and hash-colliding vectors) and "
-      "TournamentSelector.select (all ordered pairs forced through random.sample) are validated by SortTrace.",
+      "TournamentSelector.select (all ordered pairs forced through random.sample) are validated by SortTrace. Side-car (not deciding): "
+      "TLAPS proves rank-first => elitist for populations of any size (proofs/SelectionLaws.tla).",
       "trusted: TLC; affine cost concretisation (gap/range ratios exact); nearest-rational projection of crowding distances",
       "TLC exhaustive relational model + TLC trace validation of real outputs", "DESIGN.md 5/C03")
 check("C04", "model_checking",
@@ -48,7 +49,9 @@ check("C04", "model_checking",
       "TLC checks all histories of <=4 (thorough 5-6) additions over 18 vectors with a truncation anywhere: content = NonDominated(offered) "
       "= incremental NDInsert set, one representative each, mutual non-dominance, covered rejections, result law. ArchiveGen emits every "
       "history of <=3 (thorough 4) additions and simulated longer ones with truncations (2-3 objectives); they and random histories of "
-      "30-300 additions (shared design vectors included) run on the real Archive with both comparators; ArchiveTrace validates every event.",
+      "30-300 additions (shared design vectors, signed feasibility markers, close-but-distinct values) run on the real Archive with both "
+      "comparators; ArchiveTrace validates every event. Side-car (not deciding): TLAPS proves content = NonDominated(offered) inductive "
+      "for arbitrary universes and history lengths (proofs/ArchiveLaws.tla).",
       "trusted: TLC; rank abstraction of costs and features; insertion observed by object identity",
       "TLC exhaustive model + TLC-emitted behaviours replayed + TLC trace validation", "DESIGN.md 5/C04")
 
@@ -117,7 +120,7 @@ check("C17", "model_checking",
       "records over 48 record values for partition / order / default / optimum / sorted-listing laws, and the indicator laws over all 511 "
       "non-empty subsets of the 3x3 grid. TLC-simulated record lists (1..7 records) and random lists up to 40 records are recorded into a "
       "real Problem; every Results query (default, per tag, sorted, unsorted) and both indicators on integer point sets are validated by "
-      "ResultsTrace.",
+      "ResultsTrace; a quarter of the cases ask the same queries of a read-mode view of the stored run (SqliteDataStore -> ProblemViewDataStore).",
       "trusted: TLC; integer-valued records and point sets; gd compared in 1e-3 units through an integer square root",
       "TLC exhaustive model + TLC-simulated record lists replayed + TLC trace validation", "DESIGN.md 5/C17")
 
@@ -169,10 +172,11 @@ check("C10", "model_checking",
 check("C11", "fault_enumeration",
       "Store.tla gives every connection its own transaction (Exec buffers, Commit applies atomically and only then returns), an exclusive lock "
       "and a Crash action enabled in every state; TLC checks ReturnedAreDurable / NoFutureRows / LockExclusive over all interleavings of two "
-      "connections with a crash anywhere, and that the named deviation batched-commit violates it. Fault enumeration on the real code: a dry "
+      "connections with a crash anywhere (incl. Spill: pages written before the commit; CrashAtomic), and that the named deviations batched-commit and "
+      "journal-off violate it. Fault enumeration on the real code: a dry "
       "run counts the crash points (objective entry / exit, before / after every SQL statement and commit that artap issues, via a proxy "
-      "around sqlite3.connect) of four scenarios (serial batch, two-thread batch, NSGA-II run, bulk sync_all larger than SQLite's page "
-      "cache); one forked child per point dies there with os._exit, plus SIGKILL at random instants; the file is reopened through "
+      "around sqlite3.connect) of five scenarios (serial batch, the same with 'database is locked' injected inside sync_individual, two-thread batch, NSGA-II run, "
+      "bulk sync_all larger than SQLite's page cache); one forked child per point dies there with os._exit, plus SIGKILL at random instants; the file is reopened through "
       "ProblemViewDataStore, raw SQL and PRAGMA integrity_check; StoreTrace validates: readable, one row per id, every synchronisation that "
       "had returned is present with its data, no partial row, costs match the row's vector. Quick: <=45 points per scenario.",
       "trusted: TLC; process death = os._exit / SIGKILL (page cache survives, power loss not modelled); crashes inside SQLite's own C code are "
@@ -200,7 +204,8 @@ check("C09", "model_checking",
       "objective call log and Problem.populations(); RunTrace checks budget, tags, sizes, distinctness, the full NSGA-II step relation "
       "(survivors from parents and offspring, rank first, by front peeling), elitism and monotonicity; pop_acceptance is executed on "
       "sampled populations of the model's vectors with every random.choice outcome forced and judged by PopAcceptOK, and every "
-      "acceptance step of the real eps-MOEA runs is observed and judged the same way.",
+      "acceptance step of the real eps-MOEA runs is observed and judged the same way. Compose.tla (constant-level, all pools <= 3 (4)) links "
+      "the suite: C02's ranks + any truncation C03 allows => this step relation and elitism.",
       "trusted: TLC; design identity = exact vector; hash-based deterministic objective; rank abstraction over the whole run",
       "TLC exhaustive generation model + TLC trace validation of whole real runs + forced-choice acceptance table", "DESIGN.md 5/C09")
 
